@@ -1,5 +1,6 @@
 """C04 - layered remapping fidelity.  L2 = P_C04 (abstract layered-keymap model)."""
 from props.common import *
+import itertools
 
 K = lambda k: {"t": "key", "k": k}
 CH = lambda mods, k: {"t": "chord", "mods": mods, "k": k}
@@ -11,24 +12,30 @@ LWH = lambda l: {"t": "lwh", "l": l}
 LSW = lambda l: {"t": "lsw", "l": l}
 RELK = lambda k: {"t": "relkey", "k": k}
 RELL = lambda l: {"t": "rellayer", "l": l}
+ALIAS = lambda n, a: {"t": "alias", "n": n, "a": a}     # written as @n with (defalias n <a>); means <a> (docs: Aliases)
 
 
 def family(tier, rng):
     keys = ["a", "b", "c"]
     F = []
 
-    def add(name, layers, defcfg=None, ks=None, unmapped=None):
+    def add(name, layers, defcfg=None, ks=None, unmapped=None, syntax=None):
         d = {"keys": ks or keys, "layers": layers, "defcfg": dict(defcfg or {})}
         if unmapped:
             d["unmapped"] = unmapped
+        if syntax:
+            # which layer is written as deflayer / deflayermap (all keys) / deflayermap without its transparent entries:
+            # the description (and so the P_C04 parameters) is the same whichever way a layer is spelled
+            d["syntax"] = syntax
         F.append((name, d))
 
     # two keys holding the same layer: the layer lasts until both are released (each release undoes its own press)
     add("two_holders", [{"a": LWH(1), "b": LWH(1), "c": K("x")},
-                        {"a": TR, "b": TR, "c": K("y")}])
+                        {"a": TR, "b": TR, "c": K("y")}], syntax=["sparse", "layer"])
     # keys outside defsrc: pass through with process-unmapped-keys, no-op on every layer with block-unmapped-keys
     add("unmapped_block", [{"a": LSW(1), "b": LWH(2)}, {"a": LSW(0), "b": TR}, {"a": K("x"), "b": TR}],
-        {"process-unmapped-keys": "yes", "block-unmapped-keys": "yes"}, ks=["a", "b"], unmapped=["c"])
+        {"process-unmapped-keys": "yes", "block-unmapped-keys": "yes"}, ks=["a", "b"], unmapped=["c"],
+        syntax=["map", "map", "map"])
     add("unmapped_pass", [{"a": LSW(1), "b": LWH(2)}, {"a": LSW(0), "b": TR}, {"a": K("x"), "b": TR}],
         {"process-unmapped-keys": "yes"}, ks=["a", "b"], unmapped=["c"])
 
@@ -36,11 +43,17 @@ def family(tier, rng):
                       {"a": K("1"), "b": TR, "c": MULTI(K("lctl"), K("z"))}])
     add("lwh_stack", [{"a": K("a"), "b": LWH(1), "c": LWH(2)},
                       {"a": K("1"), "b": TR, "c": TR},
-                      {"a": TR, "b": K("2"), "c": TR}])
+                      {"a": TR, "b": K("2"), "c": TR}], syntax=["map", "layer", "layer"])
+    # several transparent items in one multi (directly, through aliases = nested multis, and one found through the
+    # other): each of them searches below the layer its multi was found on, whatever its siblings found
+    add("multi_two_trans", [{"a": K("x"), "b": LWH(1), "c": LWH(2)},
+                            {"a": MULTI(TR, K("lalt"), TR), "b": TR, "c": TR},
+                            {"a": MULTI(ALIAS("sb", MULTI(K("lsft"), TR)), ALIAS("cb", MULTI(K("lctl"), TR))),
+                             "b": TR, "c": TR}], syntax=["layer", "map", "sparse"])
     add("lsw_delegate", [{"a": K("x"), "b": LSW(1), "c": LWH(2)},
                          {"a": TR, "b": LSW(0), "c": TR},
                          {"a": TR, "b": MULTI(TR, K("lsft")), "c": TR}],
-        {"delegate-to-first-layer": "yes"})
+        {"delegate-to-first-layer": "yes"}, syntax=["layer", "sparse", "layer"])
     add("chord_multi", [{"a": CH(["lsft"], "x"), "b": MULTI(K("lctl"), K("y")), "c": LWH(1)},
                         {"a": SRC, "b": XX, "c": TR}])
     add("release_ops", [{"a": MULTI(K("x"), LWH(1)), "b": RELK("x"), "c": K("y")},
@@ -89,7 +102,11 @@ def random_action(rng, nlayers, depth=0):
     if r < 0.93 and nlayers > 1:
         return RELL(rng.randrange(nlayers))
     if depth < 1:
-        return MULTI(*[random_action(rng, nlayers, depth + 1) for _ in range(rng.randint(2, 3))])
+        items = [random_action(rng, nlayers, depth + 1) for _ in range(rng.randint(2, 3))]
+        if rng.random() < 0.3:      # "modifier + whatever is below" aliases combined in one multi
+            items = [ALIAS("m%d" % rng.randrange(10 ** 6), MULTI(K(rng.choice(["lsft", "lctl"])), TR))
+                     if rng.random() < 0.6 else x for x in items]
+        return MULTI(*items)
     return K(rng.choice(outs))
 
 
@@ -124,7 +141,7 @@ def run(tier, seed):
         keys = [cfgdesc.code(k) for k in list(desc["keys"]) + list(desc.get("unmapped", []))]
         inst = {"name": "c04_" + name, "kbd": kbd, "keys": keys, "qmax": 3,
                 "monitor": {"module": "P_C04", "params": params}}
-        r = mc.check_instance(inst, wd, workers=12, timeout=900)
+        r = mc.check_instance(inst, wd, workers=6, timeout=900)
         res.add_instance(r)
         if len(res.samples) < 3:
             res.samples.append({"instance": name, "kbd": kbd, "states": r["states"], "edges": r.get("edges")})
@@ -135,16 +152,25 @@ def run(tier, seed):
         if scripts:
             witness_jobs.append({"cfg": kbd, "params": params, "tag": "w:" + name, "scripts": scripts})
         # binding C(iii): random histories beyond the model's bounds (length, pending events)
+        # ... on the same description written in every mix of the two layer syntaxes (each layer as deflayer or as
+        # deflayermap, the latter with or without its transparent entries): the parameters of P_C04 come from the
+        # description, so a layer table that depends on how / in which order the layers are spelled is rejected
         n = 40 if tier == "quick" else 300
-        scripts = [rand_history(rng, keys, rng.randint(5, 60 if tier == "quick" else 300), [0, 1, 1, 1, 2, 3], tail=6)
-                   for _ in range(n)]
-        jobs_random.append({"cfg": kbd, "params": params, "tag": "r:" + name, "scripts": scripts})
+        masks = list(itertools.product(("layer", "map"), repeat=len(desc["layers"])))
+        per = max(2, -(-n // len(masks)))
+        for mi, mask in enumerate(masks):
+            syn = [("sparse" if s == "map" and rng.random() < 0.5 else s) for s in mask]
+            kbd_m = cfgdesc.render_kbd(dict(desc, syntax=syn))
+            scripts = [rand_history(rng, keys, rng.randint(5, 60 if tier == "quick" else 300), [0, 1, 1, 1, 2, 3], tail=6)
+                       for _ in range(per)]
+            jobs_random.append({"cfg": kbd_m, "params": params, "tag": "r:%s:%d" % (name, mi), "scripts": scripts})
     if tier == "thorough":
         # random configurations of the fragment with 2-6 mapped keys
         allkeys = ["a", "b", "c", "d", "e", "f"]
         for i in range(150):
             ks = allkeys[:rng.randint(2, 6)]
             desc = random_desc(rng, ks)
+            desc["syntax"] = [rng.choice(["layer", "map", "sparse"]) for _ in desc["layers"]]
             kbd = cfgdesc.render_kbd(desc)
             codes = [cfgdesc.code(k) for k in list(ks) + list(desc.get("unmapped", []))]
             scripts = [rand_history(rng, codes, rng.randint(5, 300), [0, 1, 1, 1, 2, 3], tail=6) for _ in range(20)]
